@@ -129,6 +129,9 @@ func RunDriver(a DriverArgs) int {
 	if timeout <= 0 {
 		timeout = 60
 	}
+	if info.MaxRSSMB == 0 && info.Race {
+		info.MaxRSSMB = 8192
+	}
 
 	var mu sync.Mutex
 	outcomes := map[int]caseOutcome{}
@@ -146,7 +149,7 @@ func RunDriver(a DriverArgs) int {
 				"--prop", a.Prop, "--tier", a.Tier, "--seed", strconv.FormatUint(a.Seed, 10),
 				"--start", strconv.Itoa(cur), "--step", strconv.Itoa(step), "--end", strconv.Itoa(end),
 				"--journal", journal, "--scratch", filepath.Join(scratch, fmt.Sprintf("w%d", w)),
-				"--timeout", strconv.Itoa(timeout))
+				"--timeout", strconv.Itoa(timeout), "--maxrss", strconv.Itoa(info.MaxRSSMB))
 			cmd.Stdout = ef
 			cmd.Stderr = ef
 			cmd.Env = append(os.Environ(),
